@@ -17,6 +17,7 @@ import (
 	"math/rand"
 	"os"
 	"strings"
+	"time"
 
 	"verifharness/internal/coqfmt"
 )
@@ -99,7 +100,10 @@ func main() {
 	per := flag.Int("per", 100, "cases per Coq chunk")
 	replay := flag.String("replay", "", "JSON file with {universe, opts}: run the two-run protocol on it")
 	pickArg := flag.String("pick", "", "kind:index - regenerate the stream but keep only that case (kind = ccases|hcases|vcases|fcases|tcases|gcases) and print it")
+	wdms := flag.Int("watchdog-ms", 30000, "per-case watchdog in milliseconds (the confirmation deadline is ten times this)")
 	flag.Parse()
+	watchdog = time.Duration(*wdms) * time.Millisecond
+	confirmDeadline = 10 * watchdog
 
 	dir, err := os.MkdirTemp("", "c12-")
 	if err != nil {
